@@ -391,6 +391,27 @@ func checkC14(c *Ctx, r *Report) {
 		r.Check(okExit && nExit > 0, name+"|loop exit", walk.Pos(), "loop ends at record ID 0xFFFF", "the walk's loop does not end exactly when the next record ID is 0xFFFF")
 	}
 
+	// the retried retrieval reports success only if the walk and both repository-info reads
+	// did: every error it is given is examined (rule shared with C13)
+	{
+		var ops []*ssa.Function
+		for _, rs := range c.RetrySites() {
+			if rs.Op == nil {
+				continue
+			}
+			callsWalk := false
+			viewInstrs(rs.Op, func(in ssa.Instruction) {
+				if cc := asCall(in); cc != nil && cc.StaticCallee() == walk {
+					callsWalk = true
+				}
+			})
+			if callsWalk {
+				ops = append(ops, rs.Op)
+			}
+		}
+		checkErrorsExamined(c, r, "retrieval-errors-examined", "the retried retrieval operation reports success only on paths where the errors of the walk and of both repository-info reads were compared with nil", 1, ops)
+	}
+
 	r.Rule("errors-abort", "every return other than the final one returns a nil map and a non-nil error; the final return is reached only through the 0xFFFF exit", 3)
 	// the records of an abandoned walk must not survive: the map is allocated by the walk itself
 	freshMap := true
